@@ -8,6 +8,7 @@
 #define protected public
 #include <ompl/geometric/planners/rrt/RRT.h>
 #include <ompl/geometric/planners/rrt/RRTConnect.h>
+#include <ompl/geometric/planners/rrt/LazyRRT.h>
 #undef protected
 #include <ompl/base/goals/GoalStates.h>
 #include <ompl/base/spaces/RealVectorStateSpace.h>
@@ -109,8 +110,8 @@ int main()
             std::printf("\n"); std::fflush(stdout);
             continue;
         }
-        const bool multi = cmd == "RRTN";
-        if (cmd != "RRT" && !multi) continue;
+        const bool multi = cmd == "RRTN"; const bool lazy = cmd == "LRRT";
+        if (cmd != "RRT" && !multi && !lazy) continue;
         in >> maxd >> bias >> thr; if (!multi) in >> iters >> tseed;
         std::vector<Wall> walls; std::vector<std::pair<double, double>> starts; double gx = 0, gy = 0;
         auto samples = std::make_shared<std::deque<std::pair<double, double>>>();
@@ -134,6 +135,31 @@ int main()
         auto pdef = std::make_shared<ob::ProblemDefinition>(si);
         for (auto &s : starts) { ob::ScopedState<> a(space); a[0] = s.first; a[1] = s.second; pdef->addStartState(a); }
         ob::ScopedState<> g(space); g[0] = gx; g[1] = gy; pdef->setGoalState(g, thr);
+        if (lazy)
+        {   // LRRT: same line format as RRT, the planner is LazyRRT; nodes are printed with their validated flag
+            auto lp = std::make_shared<og::LazyRRT>(si);
+            lp->setNearestNeighbors<ompl::NearestNeighborsLinear>(); lp->setRange(maxd); lp->setGoalBias(bias);
+            lp->setProblemDefinition(pdef); lp->setup();
+            samples->clear(); for (auto &p : calls[0].pts) samples->push_back(p);
+            std::vector<double> tape; for (unsigned long q = 0; q < (unsigned long)calls[0].iters + 8; ++q) tape.push_back((double)((calls[0].tseed + 7 * q + 3 * q * q) % 64) / 64.0);
+            ob::IterationTerminationCondition itc(calls[0].iters);
+            ompl::RNG::verifSetTape(tape.data(), tape.size());
+            lp->solve(ob::PlannerTerminationCondition(itc));
+            ompl::RNG::verifSetTape(nullptr, 0);
+            std::vector<og::LazyRRT::Motion *> ms; lp->nn_->list(ms);
+            std::map<const og::LazyRRT::Motion *, long> idx; for (std::size_t i = 0; i < ms.size(); ++i) idx[ms[i]] = (long)i;
+            std::printf("lrrt %zu;", ms.size());
+            for (auto *m : ms) { const double *v = m->state->as<ob::RealVectorStateSpace::StateType>()->values; std::printf(" %016llx %016llx %ld %d;", bits(v[0]), bits(v[1]), m->parent ? idx[m->parent] : -1L, m->valid ? 1 : 0); }
+            if (pdef->hasSolution())
+            {
+                auto path = std::dynamic_pointer_cast<og::PathGeometric>(pdef->getSolutionPath());
+                std::printf(" | 1 %d |", pdef->hasApproximateSolution() ? 1 : 0);
+                for (std::size_t i = 0; i < path->getStateCount(); ++i) { const double *v = path->getState(i)->as<ob::RealVectorStateSpace::StateType>()->values; std::printf(" %016llx %016llx;", bits(v[0]), bits(v[1])); }
+            }
+            else std::printf(" | 0 |");
+            std::printf("\n"); std::fflush(stdout);
+            continue;
+        }
         auto planner = std::make_shared<og::RRT>(si);
         planner->setNearestNeighbors<ompl::NearestNeighborsLinear>();
         planner->setRange(maxd); planner->setGoalBias(bias);
